@@ -51,7 +51,7 @@ def main():
         "hooks": {
             "guard": "verif",
             "enable": "go build -tags verif (the checks build cmd/shoot and the harness with it)",
-            "baseline_off_cmd": "cd /repo && GOFLAGS=-mod=mod GOPROXY=off go test -vet=off -count=1 ./...",
+            "baseline_off_cmd": "cd /repo && GOFLAGS=-mod=mod GOPROXY=off go test -json -vet=off -count=1 ./...",
             "source_commits": HOOK_COMMITS,
             "add_only": True,
         },
